@@ -3,11 +3,15 @@ import CarModel.Proofs.IndexLoad
 import CarModel.Proofs.StoreInv
 import CarModel.Proofs.IndexSearch
 import CarModel.Proofs.IndexWf
+import CarModel.Proofs.FactsTie
 /-
 C11 — Index serialization is canonical and lossless.
 -/
 namespace Car.C11
 open Car
+
+/-- Guard fact, regenerated from the source: `Flatten` = one `Load` of all records, outside any loop. -/
+theorem flatten_shape : Facts.flattenShape = ["New", "AscendGreaterOrEqual", "Load"] := by decide
 
 /-- (1) Lossless: reading back what was written yields the same index (hence every lookup and
     iteration answers identically), whatever follows it in the stream. -/
